@@ -48,7 +48,7 @@ TraceOpen == Step("Open") /\ Open
 TraceR == /\ Step("R")
           /\ Read
           /\ LET e == Trace[l] IN
-               /\ SameValue(e.ret, backs'[Len(backs')])
+               /\ SameValue(e.ret, backs'[Len(backs')]) = TRUE
                /\ e.avail = Len(wire) - (rpos' - 1)
 
 TraceReEnc == /\ Step("ReEnc")
@@ -61,7 +61,7 @@ TraceEnd == /\ Step("End")
 
 \* what the real code reported for a one-value history must be what RT made of it
 RTObserved(e) == /\ e.out = wire'
-                 /\ SameValue(e.ret, backs'[1])
+                 /\ SameValue(e.ret, backs'[1]) = TRUE
                  /\ e.avail = Len(wire') - (rpos' - 1)
                  /\ e.again = again'[1]
 
@@ -71,11 +71,11 @@ TraceRT == /\ Step("RT")
 \* a deep value: the spine notation is expanded, then it is a value like any other
 TraceRTs == /\ Step("RTs")
             /\ LET e == Trace[l] IN
-                 /\ SpineOK(e.sp) /\ SpineOK(e.rsp)
+                 /\ SpineOK(e.sp) = TRUE /\ SpineOK(e.rsp) = TRUE
                  /\ \E v \in {Spine(e.sp, e.in)} : \E rv \in {Spine(e.rsp, e.rin)} :
                       /\ RT(v)
                       /\ e.out = wire'
-                      /\ SameValue(rv, backs'[1])
+                      /\ SameValue(rv, backs'[1]) = TRUE
                       /\ e.avail = Len(wire') - (rpos' - 1)
                       /\ e.again = again'[1]
 
